@@ -2,7 +2,8 @@
    The judges used on the implementation's states are verified: a state is reported DEAD only by Parikh.dead (sound by
    dead_sound: no word of the content model dominates the children), ALIVE only by a checked witness (witness_sound).
    Refutations: states the faithful model accepts although they are provably dead. *)
-From MX Require Import Spec.Particle Spec.Deriv Spec.Parikh Gen.Names Gen.Templates Model.Tables Model.PyM Model.PyObs.
+From MX Require Import Spec.Particle Spec.Deriv Spec.Parikh Gen.Names Gen.Templates Gen.Schema Gen.Lib Model.Tables Model.PyM Model.PyObs
+  Model.AbsSeq Model.AbsSeqC02 Model.Classes Model.SeqMachine Model.SeqComplete.
 From Coq Require Import List Bool Arith.
 Import ListNotations.
 
@@ -16,6 +17,19 @@ Print Assumptions C07_judge_alive.
 Theorem C07_templates_wf : forall k p, In (k, p) lib_templates -> wf (re_of p) = true.
 Proof. intros k p I. exact (forallb_In (fun kp => wf (re_of (snd kp))) lib_templates (k, p) ltac:(vm_compute; reflexivity) I). Qed.
 Print Assumptions C07_templates_wf.
+
+(* the property itself on the sequence machine: for every template of the sequence class (61 of today's 94 types) and EVERY
+   history of add / remove / replace / final, the state reached can be completed: there are further adds, all accepted, after
+   which the final check passes *)
+Theorem C07_partial_seq : forall k l, In (k, l) lib_templates -> Classes.is_seq l = true ->
+  exists t, stree_of l = Some t /\ forall ops, exists ext,
+    Forall (fun o => o = MOk) (mouts (mrun t ops) (map MAdd ext)) /\ verdict_ok (fold_left (fun s o => fst (mstep s o)) (map MAdd ext) (mrun t ops)) = true.
+Proof.
+  intros k l _ S. destruct (is_seq_parts l S) as (t & St & W & ND). exists t. split; auto. intros ops. apply C07_machine; auto.
+Qed.
+Print Assumptions C07_partial_seq.
+Example C07_nonvacuous : Nat.leb 55 (List.length (filter (fun kl => Classes.is_seq (snd kl)) lib_templates)) = true.
+Proof. vm_compute. reflexivity. Qed.
 
 (* ---- refutations on the faithful model ---- *)
 (* RC1: after replace(step -> octave) the element holds two octaves: accepted, provably dead *)
